@@ -96,6 +96,11 @@ func (share *Share) Verify(ec elliptic.Curve, threshold int, vs Vs) bool {
 	if share.Threshold != threshold || vs == nil || len(vs) != threshold+1 {
 		return false
 	}
+	// an ID or a share that is 0 mod q would make a scalar multiplication below yield the point at infinity
+	q := ec.Params().N
+	if new(big.Int).Mod(share.ID, q).Sign() == 0 || new(big.Int).Mod(share.Share, q).Sign() == 0 {
+		return false
+	}
 	var err error
 	modQ := common.ModInt(ec.Params().N)
 	v, t := vs[0], one // YRO : we need to have our accumulator outside of the loop
